@@ -17,6 +17,9 @@ import (
 	"fmt"
 	"os"
 	"path/filepath"
+	"runtime"
+	"sort"
+	"strings"
 	"sync"
 	"sync/atomic"
 	"time"
@@ -31,6 +34,8 @@ type Op struct {
 	Op  string `json:"op"`
 	Txn string `json:"txn,omitempty"`
 	How string `json:"how,omitempty"`
+	G   string `json:"g,omitempty"`
+	URL string `json:"url,omitempty"`
 }
 
 type Event struct {
@@ -38,6 +43,28 @@ type Event struct {
 	Threads [][]Op  `json:"threads,omitempty"`
 	Steps   [][]any `json:"steps,omitempty"` // sched: ["inc",i] | ["allowed",i] | ["tick"]
 	W       int64   `json:"w,omitempty"`
+	G       string  `json:"g,omitempty"` // fwstorm: group
+	N       int     `json:"n,omitempty"` // fwstorm / cqstorm: number of simultaneous requests
+}
+
+// which processors ran for the transaction handled by the calling goroutine (ExecuteFlow runs on the caller's goroutine)
+var (
+	procMu  sync.Mutex
+	procsOf = map[uint64][]string{}
+)
+
+func goid() uint64 {
+	var buf [64]byte
+	n := runtime.Stack(buf[:], false)
+	// "goroutine 123 [running]:"
+	var id uint64
+	for _, c := range buf[len("goroutine "):n] {
+		if c < '0' || c > '9' {
+			break
+		}
+		id = id*10 + uint64(c-'0')
+	}
+	return id
 }
 
 // gates: requests parked at the yield point limiter.after_inc (between quota.Inc and quota.Allowed)
@@ -52,6 +79,21 @@ var (
 )
 
 func sink(point string, kv ...any) {
+	if point == "proc.exec" {
+		var key string
+		for i := 0; i+1 < len(kv); i += 2 {
+			if kv[i] == "key" {
+				key = fmt.Sprint(kv[i+1])
+			}
+		}
+		g := goid()
+		procMu.Lock()
+		if _, ok := procsOf[g]; ok {
+			procsOf[g] = append(procsOf[g], key)
+		}
+		procMu.Unlock()
+		return
+	}
 	if point != "limiter.after_inc" {
 		return
 	}
@@ -123,6 +165,87 @@ func main() {
 						vh.Die("engine: %v", err)
 					}
 					tr.Add(vh.Ev{"ev": "reset"})
+				case "fwstorm", "cqstorm":
+					// n simultaneous first requests; only the admitted ones are recorded (compact batch event)
+					var wg sync.WaitGroup
+					var arrived atomic.Int32
+					var mu sync.Mutex
+					adm := []string{}
+					bad := ""
+					for i := 0; i < e.N; i++ {
+						wg.Add(1)
+						id := uid.Add(1)
+						go func() {
+							defer wg.Done()
+							arrived.Add(1)
+							for spins := 0; arrived.Load() < int32(e.N) && spins < 1_000_000; spins++ {
+								runtime.Gosched() // yield: all goroutines of the batch reach the real code together
+							}
+							var res c01eng.ReqResult
+							txn := fmt.Sprintf("st%d", id)
+							if e.Ev == "fwstorm" {
+								res = eng.Request(txn, "GET", "api.test/fw", map[string]string{"x-group": e.G})
+							} else {
+								res = eng.Request(txn, "GET", "api.test/cq", nil)
+							}
+							out := outcome(res)
+							mu.Lock()
+							if out == "admit" {
+								adm = append(adm, txn)
+							} else if out != "refuse" {
+								bad = out
+							}
+							mu.Unlock()
+						}()
+					}
+					wg.Wait()
+					if bad != "" {
+						vh.Die("storm: %s", bad)
+					}
+					if e.Ev == "fwstorm" {
+						tr.Add(vh.Ev{"ev": "fwbatch", "g": e.G, "n": e.N, "p": len(adm)})
+					} else {
+						sort.Strings(adm)
+						tr.Add(vh.Ev{"ev": "cqbatch", "n": e.N, "adm": adm})
+						for _, txn := range adm { // give the slots back, one at a time
+							id := uid.Add(1)
+							if msg := eng.Response(txn, "GET", "api.test/cq", 200, nil); msg != "" {
+								vh.Die("response: %s", msg)
+							}
+							tr.Add(vh.Ev{"ev": "begin", "id": id, "op": "endcq", "txn": txn})
+							tr.Add(vh.Ev{"ev": "end", "id": id})
+						}
+					}
+				case "hammer":
+					// e.N goroutines, each e.W times: request a slot of the concurrency quota and, when admitted, give it back;
+					// no barriers, so calls overlap in every phase. Every call is logged (invoke / return).
+					var wg sync.WaitGroup
+					for th := 0; th < e.N; th++ {
+						wg.Add(1)
+						go func(th int) {
+							defer wg.Done()
+							for it := int64(0); it < e.W; it++ {
+								id := uid.Add(1)
+								txn := fmt.Sprintf("hm%d", id)
+								b := tr.Stamp()
+								out := outcome(eng.Request(txn, "GET", "api.test/cq", nil))
+								tr.AddAt(b, vh.Ev{"ev": "begin", "id": id, "op": "reqcq", "txn": txn, "out": out})
+								tr.Add(vh.Ev{"ev": "end", "id": id})
+								if out == "admit" {
+									id2 := uid.Add(1)
+									b2 := tr.Stamp()
+									if msg := eng.Response(txn, "GET", "api.test/cq", 200, nil); msg != "" {
+										vh.Die("response: %s", msg)
+									}
+									tr.AddAt(b2, vh.Ev{"ev": "begin", "id": id2, "op": "endcq", "txn": txn})
+									tr.Add(vh.Ev{"ev": "end", "id": id2})
+								} else if out != "refuse" {
+									vh.Die("hammer: %s", out)
+								}
+							}
+						}(th)
+					}
+					wg.Wait()
 				case "sched":
 					// directed schedule from the interleaving model: one fixed-window request per model request
 					type run struct {
@@ -150,8 +273,8 @@ func main() {
 							go func() {
 								defer close(r.done)
 								b := tr.Stamp()
-								res := eng.Request(req, "GET", "api.test/fw", nil)
-								tr.AddAt(b, vh.Ev{"ev": "begin", "id": id, "op": "reqfw", "out": outcome(res), "model_req": i})
+								res := eng.Request(req, "GET", "api.test/fw", map[string]string{"x-group": "g0"})
+								tr.AddAt(b, vh.Ev{"ev": "begin", "id": id, "op": "reqfw", "g": "g0", "out": outcome(res), "model_req": i})
 								tr.Add(vh.Ev{"ev": "end", "id": id})
 							}()
 							select {
@@ -189,6 +312,7 @@ func main() {
 							defer wg.Done()
 							arrived.Add(1)
 							for spins := 0; arrived.Load() < n && spins < 1_000_000; spins++ {
+								runtime.Gosched() // yield: all goroutines of the batch reach the real code together
 							}
 							for _, op := range ops {
 								id := uid.Add(1)
@@ -196,8 +320,25 @@ func main() {
 								switch op.Op {
 								case "reqfw":
 									b := tr.Stamp()
-									res := eng.Request(fmt.Sprintf("f%d", id), "GET", "api.test/fw", nil)
-									tr.AddAt(b, vh.Ev{"ev": "begin", "id": id, "op": "reqfw", "out": outcome(res)})
+									res := eng.Request(fmt.Sprintf("f%d", id), "GET", "api.test/fw", map[string]string{"x-group": op.G})
+									tr.AddAt(b, vh.Ev{"ev": "begin", "id": id, "op": "reqfw", "g": op.G, "out": outcome(res)})
+									tr.Add(vh.Ev{"ev": "end", "id": id})
+								case "reqsel":
+									g := goid()
+									procMu.Lock()
+									procsOf[g] = []string{}
+									procMu.Unlock()
+									b := tr.Stamp()
+									res := eng.Request(fmt.Sprintf("s%d", id), "GET", op.URL, nil)
+									procMu.Lock()
+									keys := procsOf[g]
+									delete(procsOf, g)
+									procMu.Unlock()
+									out := fmt.Sprintf("%d|%s", res.Status, strings.Join(keys, ","))
+									if res.Err != "" {
+										out = "error:" + res.Err
+									}
+									tr.AddAt(b, vh.Ev{"ev": "begin", "id": id, "op": "reqsel", "url": op.URL, "out": out})
 									tr.Add(vh.Ev{"ev": "end", "id": id})
 								case "reqcq":
 									b := tr.Stamp()
